@@ -1,5 +1,6 @@
 import Woodpile.Driver.Util
 import Woodpile.Model.AtomicBaseTime
+import Woodpile.Driver.Unwind
 
 /-!
 Family `abt` (C13, C18): the `AtomicBaseTime` thread programs and the two memory machines.
@@ -21,6 +22,11 @@ Ops
 * `new_default`: what `AtomicBaseTime::new()` / `Default::default()` build (`SC.init` / `RA.init`):
   the five words, the mutex, and what a solo `sequence` / `snapshot` return from it.
 * `explore …`: harness-only oracle run (bounded exhaustive search on the real code).
+* `seq new|default`, `seq snapshot`, `seq update <b> <v>`, `seq try_update <b> <v>` (track traits):
+  plain sequential calls on an object of their own = solo runs of thread 0 on a separate SC
+  machine; answer `seq ret…` / `seq panic`.  `unwinding seq <call>` (`Driver/Unwind.lean`) is the
+  same call (the harness makes it while the thread unwinds); accepted only for calls that
+  cannot panic: a snapshot, or an update whose voucher matches its base time.
 -/
 namespace Woodpile.Driver.AbtFam
 open Woodpile.Driver Woodpile.Abt
@@ -142,6 +148,8 @@ structure St where
   sc : SC.State
   ra : RA.State
   kinds : Nat → Kind
+  /-- the object of the `seq` ops -/
+  seq : SC.State := SC.init two64
 
 def v0 : Nat := two64
 
@@ -234,6 +242,45 @@ def describeInit : String :=
   "words=" ++ ",".intercalate wordsSc ++ ";lock=" ++ lock ++ ";sequence:" ++ soloInit .sequence .sequence 1 ++
     ";snapshot:" ++ soloInit .snapshot .snapshot 4
 -- END track apileft (abt)
+-- BEGIN track traits: plain sequential calls
+/-- thread 0 alone, to the end of its call -/
+def seqLoop (k : Kind) : Nat → SC.State → SC.State × String
+  | 0, sc => (sc, "fuel")
+  | fuel + 1, sc =>
+    match fmtEnd k (sc.thr 0) with
+    | some e => (sc, e)
+    | none =>
+      match SC.step chk sc (.run 0 0) with
+      | some sc' => seqLoop k fuel sc'
+      | none => (sc, "stuck")
+
+def seqCall (sc : SC.State) (k : Kind) (op : Op) : SC.State × String :=
+  match SC.step chk sc (.start 0 op) with
+  | none => (sc, "busy")
+  | some sc1 => seqLoop k 64 sc1
+
+def stepSeq (s : St) : List String → Option (St × List String)
+  | ["seq", "new"] => some ({ s with seq := SC.init v0 }, ["seq fresh"])
+  | ["seq", "default"] => some ({ s with seq := SC.init v0 }, ["seq fresh"])
+  | "seq" :: rest =>
+    match parseOp rest with
+    | some (k, op, []) =>
+      if k = .unlocked then some (s, ["bad-op"]) else
+      let (sc', e) := seqCall s.seq k op
+      some ({ s with seq := sc' }, ["seq " ++ e])
+    | _ => some (s, ["bad-op"])
+  | _ => none
+
+/-- may `unwinding <ws>` run?  (harness: `seq::seq_safe`) -/
+def unwindSafe (_ : St) : List String → Bool
+  | "seq" :: rest =>
+    match parseOp rest with
+    | some (.snapshot, _, []) => true
+    | some (_, .update b v, []) => chk b v
+    | some (_, .tryUpdate b v, []) => chk b v
+    | _ => false
+  | _ => false
+-- END track traits
 
 def step (s : St) : List String → St × List String
   | ["new_default"] => (s, ["new:" ++ describeInit ++ " default:" ++ describeInit])
@@ -244,8 +291,8 @@ def step (s : St) : List String → St × List String
       let th : Local := ({} : Local).start op
       (s, [";".intercalate (traceLoop k (4 * sc.length + 16) th sc [])])
     | _ => (s, ["bad-op"])
-  | ["machine", "sc"] => ({ initSt with mode := .sc }, ["ok"])
-  | ["machine", "ra"] => ({ initSt with mode := .ra }, ["ok"])
+  | ["machine", "sc"] => ({ initSt with mode := .sc, seq := s.seq }, ["ok"])
+  | ["machine", "ra"] => ({ initSt with mode := .ra, seq := s.seq }, ["ok"])
   | "start" :: t :: rest =>
     match t.toNat?, parseOp rest with
     | some t, some (k, op, []) =>
@@ -277,6 +324,10 @@ def step (s : St) : List String → St × List String
   | "explore" :: _ => (s, ["explored"])
   | _ => (s, ["bad-op"])
 
-def family : Family := { σ := St, init := initSt, step := step }
+def family : Family :=
+  withUnwind
+    { σ := St, init := initSt,
+      step := fun s ws => match stepSeq s ws with | some r => r | none => step s ws }
+    unwindSafe
 
 end Woodpile.Driver.AbtFam
